@@ -235,6 +235,15 @@ def Pc.owes : Pc → Option (St × St)
   | .hcReset => some (.halfOpen, .closed)
   | _ => none
 
+/-- the value a thread parked before a CAS on the state word expects to find there -/
+def Pc.casExpect : Pc → Option St
+  | .tpCas .. => some .opened
+  | .rbCas => some .halfOpen
+  | .coCas => some .closed
+  | .hoCas => some .halfOpen
+  | .hcCas => some .halfOpen
+  | _ => none
+
 /-- the edges of the state machine in the header of circuit_breaker.go -/
 def legal : St → St → Bool
   | .closed, .opened => true
